@@ -4,9 +4,12 @@
 // mutations) parsed concurrently from 2-16 goroutines, every text about
 // 50-500 times, without a runtime provider, with ONE shared
 // interpreter.ECALRuntimeProvider (the documented embedding pattern) or with a
-// provider per goroutine (what a debug console does); optionally while sinks
-// on a started processor with several workers import files through a
-// MemoryImportLocator and interpolate strings (both parse at run time).
+// provider per goroutine (what a debug console does); with a provider the
+// parsing goroutines also Validate every tree and evaluate small terminating
+// programs which interpolate strings and import files (both parse at run
+// time); optionally, at the same time, sinks on a started processor with
+// several workers import files through a MemoryImportLocator and interpolate
+// strings.
 //
 // Oracle: every concurrent result (canonical rendering of tree + token data +
 // runtime component types + pretty print, or the error text) equals the
@@ -97,8 +100,9 @@ func probeLexerLeak() {
 
 var (
 	racePkgs = []string{"github.com/krotik/ecal/parser", "github.com/krotik/ecal/interpreter"}
+	// a map literal node in the canonical rendering
+	mapNodeRe = regexp.MustCompile(`(?m)^ *` + parser.NodeMAP + ` t\d+@`)
 	// functions of package interpreter which construct runtime components
-	mapNodeRe      = regexp.MustCompile(`(?m)^ *` + parser.NodeMAP + ` t\d+@`)
 	constructionRe = regexp.MustCompile(`^interpreter\.(newBaseRuntime|[A-Za-z0-9_]*Inst|\(\*ECALRuntimeProvider\)\.Runtime|NewECALRuntimeProvider)(\.func\d+)*$`)
 
 	raceTail     *racefilter.Tail
@@ -954,9 +958,9 @@ func drawCase(rt *rapid.T) Case {
 	maxReps, budget := 150, 1500
 	switch {
 	case thorough && raceEnabled:
-		maxReps, budget = 200, 2500
+		maxReps, budget = 100, 800
 	case thorough:
-		maxReps, budget = 500, 6000
+		maxReps, budget = 500, 2000
 	case raceEnabled:
 		maxReps, budget = 60, 600
 	}
